@@ -225,6 +225,10 @@ JudgeDecapQ(e, rx, q, crc) ==
                   /\ (r.t = "err" => r.e = e.alone.e)
                   /\ (hasMeta => r.meta = e.alone.meta)
                   /\ (r.t = "completed" => r.pdu = e.alone.pdu), <<"C10">>, "Rx.TailIndependent")
+        \* lock-step: the end packet of a train the real sender produced, fed in order into a receiver that
+        \* kept every fragment, completes the PDU
+        \cup V(isPend /\ rx.pend.kind = "end" /\ wf /\ kind = "end" /\ gAgree /\ fits => (r.t = "completed" \/ ~np),
+               IF Len(sess.exts) > 0 THEN Append(PP(<<"C02">>), "C13") ELSE PP(<<"C02">>), "Rx.LockStepEndDelivers")
         \* lock-step attribution and round trip
         \cup V(isPend /\ hasMeta /\ rx.pend.kind \in {"complete", "first"} => r.meta.label = rx.pend.intended, <<"C04">>, "Rx.Attribution")
         \cup V(isPend /\ hasMeta /\ rx.pend.kind \in {"inter", "end"} => r.meta.label = sess.intended, <<"C04">>, "Rx.Attribution.frag")
@@ -261,7 +265,7 @@ JudgeDecapQ(e, rx, q, crc) ==
          \cup H(isPend /\ hasMeta /\ rx.pend.kind \in {"inter", "end"}, "Rx.Attribution.frag")
          \cup H(isPend /\ r.t = "completed" /\ rx.pend.kind = "complete", "Rx.RoundTrip.complete")
          \cup H(isPend /\ r.t = "completed" /\ rx.pend.kind = "end", "Rx.RoundTrip.fragmented")
-         \cup H(probe, "Rx.Probe")
+         \cup H(probe, "Rx.Probe") \cup H(isPend /\ rx.pend.kind = "end" /\ wf /\ kind = "end" /\ gAgree /\ fits, "Rx.LockStepEndDelivers")
          \cup H(Has(e, "of") /\ wf /\ kind = "end" /\ g.open /\ A = PduBytes(e.of), "Rx.InterleavedDelivered")
          \cup H(Has(e, "of") /\ ~(wf /\ kind = "end" /\ g.open /\ A = PduBytes(e.of)), "Rx.InterleaveClaimNotMet")
          \cup H(Has(e, "alone") /\ np /\ e.alone.t # "panic" /\ N > pl /\ delim, "Rx.TailIndependent")
